@@ -143,6 +143,7 @@ def _execute(sc, sim, out):
                 # the same input was split with automatic names before: the outputs replace the earlier ones
                 new = sorted(os.path.basename(x) for x in auto_names[inp])
                 out.probe('output_names_reused')
+            new = [n_ for n_ in new if n_.endswith('good') or n_.endswith('bad')]
             if len(new) != 2:
                 out.violate('two-files', 'automatic naming produced %s' % new)
                 break
